@@ -1,6 +1,8 @@
 import StraxModel.Lemmas.OverlapPC
 import StraxModel.Lemmas.OverlapMulti
 import StraxModel.Lemmas.OverlapGroups
+import StraxModel.Lemmas.OverlapDecl
+import StraxModel.Generated.OverlapWindow
 /-
   Property C09 — overlap-window plugins give chunking-independent results at chunk boundaries.
 
@@ -103,27 +105,7 @@ theorem overlap_whole_partial (f : List Row → List Row) (wl wr : Int) (cs outs
     (h : runOverlap f (wl, wr) cs = .ok outs) : allRows outs = f (allRows cs) := by
   obtain ⟨g, hg, hfg⟩ := hf
   -- a negative window is rejected by the model, so success implies `0 ≤ wl, wr`
-  have hw : 0 ≤ wl ∧ 0 ≤ wr := by
-    unfold runOverlap at h
-    split at h; · cases h
-    split at h; · cases h
-    split at h; · cases h
-    rename_i c rest _ rid _ _ ds hds
-    simp only [runDicts] at hds
-    split at hds; · cases hds
-    rename_i outs1 st1 hloop
-    unfold iterLoop at hloop
-    split at hloop; · cases hloop
-    rename_i inp buf' _
-    have hd := doCompute_spec1 f (wl, wr) rid c.kind none [] 0 inp
-    have hd' : doCompute (spec1 f (wl, wr) rid) State.init [(c.kind, inp)] = _ := hd
-    rw [hd'] at hloop
-    split at hloop; · cases hloop
-    rename_i out st2 hdc
-    split at hdc; · cases hdc
-    rename_i o cr ci hst
-    obtain ⟨_, _, _, _, _, _, h1, h2, _⟩ := step1_inv hst
-    exact ⟨h1, h2⟩
+  have hw : 0 ≤ wl ∧ 0 ≤ wr := runOverlap_ok_nonneg h
   obtain ⟨outs', h', hrows⟩ := runOverlap_whole (g := g) hg hfg hw.1 hw.2 hs
   rw [h] at h'
   simp only [Except.ok.injEq] at h'
@@ -421,5 +403,176 @@ theorem overlap_vocab_for_pipeline_partial (w : Nat) :
     Pipeline.StreamSpec (runOverlap (fun x => x.map (Pipeline.Vocab.overlapId w x)) ((w : Int), (w : Int)))
       (fun x => x.map (Pipeline.Vocab.overlapId w x)) :=
   overlap_whole_for_pipeline_partial _ _ _ (vocab_overlap_windowLocal w)
+
+/-! ## 9. round 5: the two halves at full strength, every form of the declared window, the translator tie
+
+### 9a. the halves of `overlap_whole` for the whole quantifier (per-row AND group-forming computations) -/
+
+/-- for ALL inputs (no law, no locality): a run that succeeded had a non-negative window — the tuple form of
+`get_window_size()` is rejected before anything is computed when an element is negative -/
+theorem overlap_ok_window_nonneg (f : List Row → List Row) (wl wr : Int) (cs outs : List Chunk)
+    (h : runOverlap f (wl, wr) cs = .ok outs) : 0 ≤ wl ∧ 0 ≤ wr :=
+  runOverlap_ok_nonneg h
+
+/-- totality, full quantifier: any computation local within the window (per-row or group-forming), any window
+`(wl, wr)` with `0 ≤ wl, wr` — zero, one-sided and asymmetric ones included — any law-abiding chunking (chunks
+shorter than the window, empty chunks) -/
+theorem overlap_total (f : List Row → List Row) (wl wr : Int) (cs : List Chunk)
+    (hs : Stream cs) (hf : LocalWithin f wl wr) (hwl : 0 ≤ wl) (hwr : 0 ≤ wr) :
+    ∃ outs, runOverlap f (wl, wr) cs = .ok outs := by
+  obtain ⟨outs, h, -⟩ := overlap_whole f wl wr cs hs hf hwl hwr
+  exact ⟨outs, h⟩
+
+/-- partial correctness, full quantifier, and WITHOUT the sign hypotheses: whatever the window, if the plugin
+yielded `outs` on a law-abiding chunking then they concatenate to the whole-run computation -/
+theorem overlap_whole_of_ok (f : List Row → List Row) (wl wr : Int) (cs outs : List Chunk)
+    (hs : Stream cs) (hf : LocalWithin f wl wr) (h : runOverlap f (wl, wr) cs = .ok outs) :
+    allRows outs = f (allRows cs) := by
+  obtain ⟨hwl, hwr⟩ := overlap_ok_window_nonneg f wl wr cs outs h
+  obtain ⟨outs', h', hr⟩ := overlap_whole f wl wr cs hs hf hwl hwr
+  rw [h] at h'
+  simp only [Except.ok.injEq] at h'
+  subst h'
+  exact hr
+
+example : LocalWithin (fGap 1) 0 1 := Or.inr ⟨1, by decide, ⟨gap_groupLocal 1⟩⟩
+
+/-- the key invariant of one call for GROUP-FORMING computations (sibling of `step_invariant_partial`, which covers
+the per-row kind; together they cover `LocalWithin`).  `old` = the input cache (rows `S2 ++ P`: results sent / pending),
+`s = sent_until` a cut of the run (`GL.Cut S2 P`), every sent row ended `2·wr + 1` before the new chunk `X` starts.
+Then the call succeeds, sends `f Qo`, withholds `f Qc` (`P ++ X.rows = Qo ++ Qc`, again a cut), every row of `Qo`
+ends by `invalid_beyond`, and the new cache `S2' ++ Qc` keeps the cut. -/
+theorem step_invariant_groups (f : List Row → List Row) (w wl wr : Int) (GL : GroupLocal f w) (hwl : 0 ≤ wl) (hwr : 0 ≤ wr)
+    (hw : w ≤ 2 * wr) (rid : String) (o X : Chunk) (s : Int) (S2 P : List Row)
+    (hX : X.good = true) (hXr : X.runId = some rid) (ho : o.good = true) (hod : o.dataType = X.dataType)
+    (hor : o.runId = some rid) (hadj : o.stop = X.start) (hrows : o.rows = S2 ++ P) (hs1 : o.start ≤ s) (hs2 : s ≤ o.stop)
+    (hS2 : ∀ r ∈ S2, r.endt ≤ s) (hP : ∀ r ∈ P, s ≤ r.time)
+    (hsent : ∀ r ∈ S2, r.endt ≤ X.start - 2 * wr - 1) (hcut : GL.Cut S2 P) :
+    ∃ out cr ci Qo Qc D2 S2',
+      step1 f (wl, wr) rid (some o) s X = .ok (out, cr, ci) ∧
+      P ++ X.rows = Qo ++ Qc ∧ out.rows = f Qo ∧ cr.rows = f Qc ∧ GL.Cut Qo Qc ∧
+      (∀ r ∈ Qo, r.endt ≤ Generated.OverlapWindow.invalidBeyond X.stop wl wr) ∧
+      S2 ++ Qo = D2 ++ S2' ∧ ci.rows = S2' ++ Qc ∧ (∀ r ∈ S2', r.endt ≤ cr.start) ∧
+      (∀ r ∈ Qc, cr.start ≤ r.time) ∧ GL.Cut S2' Qc := by
+  obtain ⟨out, cr, ci, Qo, Qc, D2, S2', h1, h2, h3, h4, h5, h6, -, -, -, -, -, -, h7, h8, h9, h10, h11⟩ :=
+    step1_gap GL hwl hwr hw (rid := rid) (old := some o) (s := s) (X := X) (S2 := S2) (P := P) hX hXr
+      (Or.inr ⟨o, rfl, ho, hod, hor, hadj, hrows, hs1, hs2⟩) hS2 hP hsent hcut
+  refine ⟨out, cr, ci, Qo, Qc, D2, S2', h1, h2, h3, h4, h5, ?_, h7, h8, h9, h10, h11⟩
+  intro r hr
+  have := h6 r hr
+  unfold Generated.OverlapWindow.invalidBeyond
+  omega
+
+/-! ### 9b. the translator tie (`Generated/OverlapWindow.lean`, regenerated by `checks/props/c09.py:regen` from the
+Python AST of `/repo/strax/plugins/overlap_window_plugin.py` on every run)
+
+Each definition below is what the SOURCE says now; each theorem says it is what the MODEL uses.  A change of
+`_get_window_size`, of the `invalid_beyond` / `cache_inputs_beyond` formulas, of `max_trials` or of the initial
+`sent_until` breaks one of these proofs (or the translation), and the check then searches for a failing input. -/
+
+/-- `_get_window_size`: number → `(w, w)` unchecked; tuple / list of two → `ValueError` iff an element is negative;
+anything else → `ValueError` — the source's function IS the model's `windowOf` + the test of `doCompute` -/
+theorem generated_window_eq_model : Generated.OverlapWindow.getWindowSize = windowResult := by
+  funext d
+  cases d with
+  | scalar w => rw [windowResult_scalar]; simp [Generated.OverlapWindow.getWindowSize, pure, Except.pure]
+  | pair a b =>
+    rw [windowResult_pair]
+    by_cases ha : a < 0 <;> by_cases hb : b < 0 <;>
+      simp [Generated.OverlapWindow.getWindowSize, pure, Except.pure, throw, throwThe, MonadExceptOf.throw, ha, hb]
+  | other => rw [windowResult_other]; simp [Generated.OverlapWindow.getWindowSize, throw, throwThe, MonadExceptOf.throw]
+
+/-- `invalid_beyond = int(end − 2·window_size[1] − 1)` is the split time of the model (`step1` / `doCompute`) -/
+theorem generated_invalid_beyond_eq_model (e wl wr : Int) :
+    Generated.OverlapWindow.invalidBeyond e wl wr = invalidBeyond e wr := by
+  unfold Generated.OverlapWindow.invalidBeyond invalidBeyond
+  omega
+
+/-- `cache_inputs_beyond = int(sent_until − 2·window_size[0] − 1)` is the split time of the model's input cache -/
+theorem generated_cache_inputs_beyond_eq_model (s wl wr : Int) :
+    Generated.OverlapWindow.cacheInputsBeyond s wl wr = cacheInputsBeyond s wl := by
+  unfold Generated.OverlapWindow.cacheInputsBeyond cacheInputsBeyond
+  omega
+
+/-- `max_trials = 10` is the fuel of the model's `cacheBeyond` (the constant behind `ten_trials_counterexample`) -/
+theorem generated_max_trials_eq_model : Generated.OverlapWindow.maxTrials = Overlap.maxTrials := by decide
+
+/-- `self.sent_until = 0` in `__init__` is the model's initial state -/
+theorem generated_sent_until_init_eq_model : Generated.OverlapWindow.sentUntilInit = State.init.sentUntil := by decide
+
+/-- what a successful call of the model did, over the GENERATED formulas: the results were split at the source's
+`invalid_beyond` of the batch end, the input batch at the source's `cache_inputs_beyond` of the new `sent_until` -/
+theorem step_boundaries_generated (f : List Row → List Row) (w : Int × Int) (rid : String) (old : Option Chunk) (s : Int)
+    (X out cr ci : Chunk) (h : step1 f w rid old s X = .ok (out, cr, ci)) :
+    ∃ (I R' i0 : Chunk),
+      (match old with
+         | none => Except.ok X
+         | some o => concatenate [o, X] false) = .ok I ∧
+      R'.split (Generated.OverlapWindow.invalidBeyond I.stop w.1 w.2) true = .ok (out, cr) ∧
+      I.split (Generated.OverlapWindow.cacheInputsBeyond cr.start w.1 w.2) true = .ok (i0, ci) := by
+  obtain ⟨I, R', i0, h1, h2, h3⟩ := step1_boundaries h
+  exact ⟨I, R', i0, h1, by rw [generated_invalid_beyond_eq_model]; exact h2,
+    by rw [generated_cache_inputs_beyond_eq_model]; exact h3⟩
+
+/-- `step_invariant_partial` over the generated formulas (per-row kernels; the group-forming sibling is
+`step_invariant_groups`): every sent row ends by the SOURCE's `invalid_beyond`, every input row dropped from the cache
+ends by the SOURCE's `cache_inputs_beyond`, and that is enough for every sent row to have been computed with all rows
+of its window in the batch -/
+theorem step_invariant_generated_partial (g : Row → List Row → Row) (hg : ∀ r ctx, (g r ctx).time = r.time ∧ (g r ctx).endt = r.endt)
+    (wl wr : Int) (hwl : 0 ≤ wl) (hwr : 0 ≤ wr) (rid : String) (o X : Chunk) (s : Int) (S2 P : List Row)
+    (hX : X.good = true) (hXr : X.runId = some rid) (ho : o.good = true) (hod : o.dataType = X.dataType)
+    (hor : o.runId = some rid) (hadj : o.stop = X.start) (hrows : o.rows = S2 ++ P) (hs1 : o.start ≤ s) (hs2 : s ≤ o.stop)
+    (hS2 : ∀ r ∈ S2, r.endt ≤ s) (hP : ∀ r ∈ P, s ≤ r.time) :
+    ∃ out cr ci Qo Qc D2 S2',
+      step1 (perRow wl wr g) (wl, wr) rid (some o) s X = .ok (out, cr, ci) ∧
+      P ++ X.rows = Qo ++ Qc ∧
+      out.rows = Qo.map (fun r => g r ((S2 ++ P ++ X.rows).filter (near wl wr r))) ∧
+      cr.rows = Qc.map (fun r => g r ((S2 ++ P ++ X.rows).filter (near wl wr r))) ∧
+      (∀ r ∈ Qo, s ≤ r.time ∧ r.endt ≤ Generated.OverlapWindow.invalidBeyond X.stop wl wr) ∧
+      S2 ++ Qo = D2 ++ S2' ∧ ci.rows = S2' ++ Qc ∧
+      (∀ n ∈ D2, n.endt ≤ Generated.OverlapWindow.cacheInputsBeyond cr.start wl wr) := by
+  obtain ⟨out, cr, ci, Qo, Qc, D2, S2', h1, h2, h3, h4, h5, h6, h7, h8, -⟩ :=
+    step_invariant_partial g hg wl wr hwl hwr rid o X s S2 P hX hXr ho hod hor hadj hrows hs1 hs2 hS2 hP
+  refine ⟨out, cr, ci, Qo, Qc, D2, S2', h1, h2, h3, h4, ?_, h6, h7, ?_⟩
+  · intro r hr
+    have := h5 r hr
+    unfold Generated.OverlapWindow.invalidBeyond
+    omega
+  · intro n hn
+    have := h8 n hn
+    unfold Generated.OverlapWindow.cacheInputsBeyond
+    omega
+
+/-! ### 9c. every form `get_window_size()` may return
+
+`runOverlapDecl f d` (Lemmas/OverlapDecl.lean; built like the driver op `c09.win`) runs the plugin whose
+`get_window_size()` returns `d : WindowDecl` — a number (the documented primary form), a tuple or list of two, or
+anything else.  **C09 for every declared form**: if the SOURCE's `_get_window_size` (generated) accepts `d` as `(wl, wr)`
+and both are non-negative, the plugin is total and chunking independent for every computation local within `(wl, wr)`.
+`0 ≤ wl`, `0 ≤ wr` exclude exactly the negative NUMBER, which the code accepts without a sign check (example below);
+negative tuple elements and illegal forms are already excluded by `hd` (`getWindowSize` answers `ValueError`). -/
+theorem overlap_whole_decl (f : List Row → List Row) (d : WindowDecl) (wl wr : Int) (cs : List Chunk)
+    (hs : Stream cs) (hd : Generated.OverlapWindow.getWindowSize d = .ok (wl, wr)) (hf : LocalWithin f wl wr)
+    (hwl : 0 ≤ wl) (hwr : 0 ≤ wr) :
+    ∃ outs, runOverlapDecl f d cs = .ok outs ∧ allRows outs = f (allRows cs) := by
+  rw [generated_window_eq_model] at hd
+  rw [runOverlapDecl_eq f d wl wr cs hd hwl hwr]
+  exact overlap_whole f wl wr cs hs hf hwl hwr
+
+/-- the scalar form: `get_window_size() = 2` on the example run, neighbour count within (2, 2) -/
+example : ∃ outs, runOverlapDecl (fCount 2 2) (.scalar 2) exampleRun = .ok outs ∧
+    allRows outs = fCount 2 2 (allRows exampleRun) :=
+  overlap_whole_decl (fCount 2 2) (.scalar 2) 2 2 exampleRun (by decide) (by decide)
+    (Or.inl (count_windowLocal_witness 2 2)) (by decide) (by decide)
+
+/-- the zero window and a one-sided (asymmetric) tuple are legal declarations -/
+example : Generated.OverlapWindow.getWindowSize (.pair 0 0) = .ok (0, 0) ∧
+    Generated.OverlapWindow.getWindowSize (.pair 0 7) = .ok (0, 7) := by decide
+
+/-- what `hwl` / `hwr` exclude: a negative NUMBER passes `_get_window_size` (no sign check in the scalar branch),
+whereas a negative tuple element and a three-element tuple are rejected -/
+example : Generated.OverlapWindow.getWindowSize (.scalar (-1)) = .ok (-1, -1) ∧
+    Generated.OverlapWindow.getWindowSize (.pair (-1) 3) = .error .valueError ∧
+    Generated.OverlapWindow.getWindowSize .other = .error .valueError := by decide
 
 end Strax.C09
